@@ -6,7 +6,7 @@ patch="$1"; pid="$2"; tier="${3:-quick}"
 wt=/tmp/mt_eval_$$
 git -C /repo worktree add -q --detach "$wt" HEAD
 trap 'git -C /repo worktree remove --force "$wt" >/dev/null 2>&1 || true' EXIT
-git -C "$wt" apply "$patch"
+git -C "$wt" apply "$patch" 2>/dev/null || git -C "$wt" apply --3way "$patch"
 cd /verif
 set +e
 VERIF_EVIDENCE_DIR="/tmp/mt_eval_ev_$$" VERIF_REPO="$wt" ./check "$pid" "$tier" > "/tmp/mt_eval_$$.log" 2>&1
